@@ -1,6 +1,8 @@
 package main
 
 import (
+	"crypto/ecdh"
+	"crypto/rand"
 	"crypto/ed25519"
 	"fmt"
 	"net/netip"
@@ -161,7 +163,56 @@ func runC13(c *Ctx) error {
 		var data []byte
 		cat := ""
 		caseT := ""
-		switch c.Rng.IntN(12) {
+		switch c.Rng.IntN(13) {
+		case 12: // valid but repeated responses to an outstanding request of this router
+			cat = "repeated-valid-response"
+			e.w.queue = nil
+			var pingID uint64
+			kind := c.Rng.IntN(2)
+			if kind == 0 {
+				_, id, err := R.ro.PingPong.Send(P1.id.IP, true, 0)
+				if err != nil {
+					continue
+				}
+				pingID = id
+			} else {
+				R.ro.VerifHelloExpire(P1.id.IP)
+				if _, err := R.ro.HelloPing.Send(P1.id.IP); err != nil || len(e.w.queue) == 0 {
+					continue
+				}
+				q := e.w.queue[len(e.w.queue)-1]
+				var h router.PingHeader
+				if b := c08Body2(q.data); len(b) > 2 && cbor.Unmarshal(b[2:2+int(b[1])], &h) == nil {
+					pingID = h.PingID
+				}
+			}
+			e.w.queue = nil
+			// two (or three) correctly signed follow-ups with the same ping id
+			for rep := 0; rep < 2+c.Rng.IntN(2); rep++ {
+				spec := pingSpec{from: P1.id, dst: self, msgType: frame.RouterPing, pingID: pingID, followUp: true, seqTime: nextCraftTime()}
+				if kind == 0 {
+					spec.pingType = "pong"
+					spec.body, _ = cbor.Marshal(map[string]string{"msg": "pong"})
+				} else {
+					spec.pingType = "hello"
+					k, _ := ecdh.X25519().GenerateKey(rand.Reader)
+					spec.body, _ = cbor.Marshal(&router.HelloPingResponse{KeyExchange: k.PublicKey().Bytes(), KeyExchangeType: "ECDH-X25519/BLAKE3", MTU: 1400})
+				}
+				d, err := craftPing(spec)
+				if err != nil {
+					continue
+				}
+				res := R.inject(d, recv)
+				e.w.queue = nil
+				c.Eval()
+				if res.panicked() {
+					c.Violate("a repeated, correctly sealed response to an outstanding request crashed a router worker", "panic-repeated-valid-response",
+						map[string]any{"kind": []string{"pong", "hello"}[kind], "repetition": rep, "errors": fmt.Sprint(res.routerWorkerErrs)})
+				}
+			}
+			c.Count("category:" + cat)
+			c.NonTrivial(fmt.Sprintf("%s/%d", cat, kind))
+			continue
 		case 0: // random bytes
 			cat = "random-bytes"
 			L := []int{0, 1, 10, 67, 68, 69, 100, 600, 1600, 9600, 65535}[c.Rng.IntN(11)]
